@@ -5,6 +5,7 @@ import (
 	"go/token"
 	"go/types"
 	"sort"
+	"strings"
 
 	"golang.org/x/tools/go/types/typeutil"
 
@@ -425,4 +426,91 @@ func blockReaches(a, b *flow.Block) bool {
 func constantNonNeg(tv types.TypeAndValue) bool {
 	s := tv.Value.ExactString()
 	return len(s) > 0 && s[0] != '-'
+}
+
+// OverflowGuards lists the comparisons in the tainted functions in which a client integer takes part in an addition
+// or multiplication on one side: `len(value)+offset > Max` wraps around for a huge offset and lets it through.
+// Expr is the arithmetic side, At the comparison.
+func (t *SignedTaint) OverflowGuards() []Sink {
+	var out []Sink
+	var names []string
+	for n := range t.Funcs {
+		names = append(names, n)
+	}
+	sort.Strings(names)
+	for _, name := range names {
+		u := t.W.units[name]
+		info := u.Info()
+		for _, b := range u.G.Blocks {
+			if !b.Reachable() {
+				continue
+			}
+			for i, n := range b.Nodes {
+				root := ast.Node(n)
+				if rh, ok := n.(*flow.RangeHead); ok {
+					root = rh.Stmt.X
+				}
+				ast.Inspect(root, func(c ast.Node) bool {
+					switch x := c.(type) {
+					case *ast.FuncLit:
+						return false
+					case *ast.BinaryExpr:
+						switch x.Op {
+						case token.LSS, token.LEQ, token.GTR, token.GEQ:
+						default:
+							return true
+						}
+						for _, side := range []ast.Expr{x.X, x.Y} {
+							ar, ok := ast.Unparen(side).(*ast.BinaryExpr)
+							if !ok || (ar.Op != token.ADD && ar.Op != token.MUL) {
+								continue
+							}
+							// 64-bit signed arithmetic only (conversions to wider/unsigned types are not tracked)
+							if tt := info.TypeOf(ar); tt == nil || !isSignedInt(tt) {
+								continue
+							}
+							for _, opnd := range []ast.Expr{ar.X, ar.Y} {
+								if v, ok := t.mentions(info, opnd); ok {
+									out = append(out, Sink{U: u, Var: v, Expr: ar, Kind: "bound test", At: x,
+										Site: &flow.Site{Kind: flow.SUse, Block: b, NodeIdx: i, Pos: x.Pos(), Ctx: shortCircuitCtx(root, x)}})
+									break
+								}
+							}
+						}
+					}
+					return true
+				})
+			}
+		}
+	}
+	return out
+}
+
+// UpperBounded: the path condition at the site bounds the variable from above by something that is not itself
+// computed from it (v < K, v <= K with v alone on its side).
+func (t *SignedTaint) UpperBounded(u *Unit, v types.Object, at *flow.Site) bool {
+	vt := u.C.TermOfObj(v)
+	pc := flow.And(u.SitePC(at), at.Ctx)
+	atoms := map[string]*flow.F{}
+	pc.Atoms(atoms)
+	for k, a := range atoms {
+		for _, op := range []string{" < ", " == "} {
+			i := strings.Index(k, op)
+			if i < 0 {
+				continue
+			}
+			l, r := k[:i], k[i+len(op):]
+			if l == vt && !strings.Contains(r, vt) && op == " < " {
+				if res := flow.Implies(pc, a); res.Holds {
+					return true
+				}
+			}
+			if r == vt && !strings.Contains(l, vt) && op == " < " {
+				if res := flow.Implies(pc, flow.Not(a)); res.Holds {
+					return true // !(K < v)  ==  v <= K
+				}
+			}
+		}
+	}
+	return false
 }
